@@ -37,17 +37,20 @@ def check_allow_cond(prog, site, entry, reach):
     cond = entry.get("cond", {})
     body, blk = site.body, site.block
     if "guard" in cond:
-        g = cond["guard"]
-        rx = re.compile(g["call"])
-        for s, lab, d, info in core.guards_dominating(prog, body, blk):
-            if lab != g["label"]:
-                continue
-            hit = [c for c in core.desc_calls(d) if rx.search(c[1])]
-            if not hit:
-                continue
-            if "lit" in g and not desc_contains(d, lambda y: y == ("lit", g["lit"])):
-                continue
-            return True, f"dominated by the {lab} edge of {g['call']}"
+        # (a list of guards: any one of the equivalent spellings of the same test)
+        alts = cond["guard"] if isinstance(cond["guard"], list) else [cond["guard"]]
+        for g in alts:
+            rx = re.compile(g["call"])
+            for s, lab, d, info in core.guards_dominating(prog, body, blk):
+                if lab != g["label"]:
+                    continue
+                hit = [c for c in core.desc_calls(d) if rx.search(c[1])]
+                if not hit:
+                    continue
+                if "lit" in g and not desc_contains(d, lambda y: y == ("lit", g["lit"])):
+                    continue
+                return True, f"dominated by the {lab} edge of {g['call']}"
+        g = alts[0]
         return False, f"the guard ({g['label']} edge of a test calling {g['call']}) no longer dominates the site"
     if "callee_ok_variant" in cond:
         c = cond["callee_ok_variant"]
